@@ -180,6 +180,11 @@ class Builder:
             # the order of the cards inside a block is free in MCNP
             self.rng.shuffle(deck.surfs)
             deck.tags.add('cards.unordered')
+        if self.rng.random() < 0.25:
+            # ... and so is the order of the cell cards: a universe may be
+            # written before the cell it fills
+            self.rng.shuffle(deck.cells)
+            deck.tags.add('cells.unordered')
         return deck
 
 
